@@ -339,6 +339,24 @@ def explore_chain(st, rows, w):
                 st.case(None, nontrivial=any(any(r) for r in rows), outcome=("chain", how, got if not isinstance(got, bytes) else len(got)))
                 if not same(got, exp, mask):
                     st.violation("C19/pdfstream-chain:" + how, case, exp, got, "CCITTFaxDecode as a later stage of a filter chain (or behind decryption) differs from direct decoding")
+            # spellings of a single filter and its parameters: name or one-element array, each way round (added after seeded defect C19_13 was missed)
+            for fname in ("CCITTFaxDecode", "CCF"):
+                for f_arr in (False, True):
+                    for p_arr in (False, True):
+                        for pkey in ("DecodeParms", "DP"):
+                            sd = {"Filter": [LIT(fname)] if f_arr else LIT(fname), pkey: [parms] if p_arr else parms}
+                            case = {"chain": [fname], "how": f"spelling:filter-{'array' if f_arr else 'name'}:{pkey}-{'array' if p_arr else 'dict'}", "w": w, "rows": [list(r) for r in rows],
+                                    "bytealign": bytealign, "blackis1": blackis1}
+                            st.states += 1
+                            st.transitions += 1
+                            st.traces += 1
+                            try:
+                                got = PDFStream(sd, data).get_data()
+                            except Exception as e:  # noqa
+                                got = f"{type(e).__name__}: {e}"
+                            st.case(None, nontrivial=any(any(r) for r in rows), outcome=("spelling", case["how"], got if not isinstance(got, bytes) else len(got)))
+                            if not same(got, exp, mask):
+                                st.violation("C19/pdfstream-spelling:" + case["how"].split(":", 1)[1], case, exp, got, "a spelling of /Filter and its parameters changes the decoded rows")
 
 
 def shards(tier):
